@@ -39,9 +39,9 @@ func InflateGraph(t *rapid.T, m *Model) string {
 	if len(obj) == 0 {
 		return ""
 	}
-	dim := rapid.SampledFrom([]string{"types", "operands", "ttu-fanout", "restrictions", "wildcards", "parents", "chain", "conditions", "relations", "ring"}).Draw(t, "scaleDim")
+	dim := rapid.SampledFrom([]string{"types", "operands", "ttu-fanout", "restrictions", "wildcards", "parents", "chain", "conditions", "relations", "ring", "name-length"}).Draw(t, "scaleDim")
 	n := rapid.SampledFrom(ScaleCounts).Draw(t, "scaleN")
-	if dim != "parents" && dim != "chain" && dim != "ring" && rapid.IntRange(0, 5).Draw(t, "scaleLarge") == 0 {
+	if dim != "parents" && dim != "chain" && dim != "ring" && dim != "name-length" && rapid.IntRange(0, 5).Draw(t, "scaleLarge") == 0 {
 		n = rapid.SampledFrom([]int{63, 64, 65, 66, 100, 127, 128, 129, 255, 256, 257, 300}).Draw(t, "scaleNLarge") // the next thresholds, up to one past a byte
 	}
 	ti := obj[rapid.IntRange(0, len(obj)-1).Draw(t, "scaleType")]
@@ -219,6 +219,34 @@ func InflateGraph(t *rapid.T, m *Model) string {
 			m.Types[ti].Rels[0].Restr = append(m.Types[ti].Rels[0].Restr, x)
 		}
 		ensureConds(m)
+	case "name-length":
+		// one object type and one relation get names of 200..254 characters (the validators allow 254 for a type; a
+		// relation of that length is legal in a model, the 50-character rule applies to tuples): labels such as
+		// "type#relation" grow beyond 256 bytes
+		ln := rapid.SampledFrom([]int{200, 206, 250, 254}).Draw(t, "scaleNameLen")
+		long := func(first byte, n int) string {
+			b := make([]byte, n)
+			for i := range b {
+				b[i] = "abcdefghij_0123456789"[i%21]
+			}
+			b[0] = first
+			return string(b)
+		}
+		oldT, oldR := td.Name, td.Rels[ri].Name
+		newT, newR := long('t', ln), long('r', rapid.SampledFrom([]int{40, 50, 200}).Draw(t, "scaleRelNameLen"))
+		if !usedT[newT] && !usedR[newR] && oldR != "p" {
+			RenameModel(m, func(s string) string {
+				if s == oldT {
+					return newT
+				}
+				return s
+			}, func(s string) string {
+				if s == oldR {
+					return newR
+				}
+				return s
+			}, func(s string) string { return s })
+		}
 	case "ring":
 		// N relations in a ring: every one refers to the next (the last to the first) by a computed userset, by a
 		// tuple-to-userset, or by both; with a computed link everywhere the ring is a tuple-free rewrite cycle through N
